@@ -25,9 +25,14 @@ Definition abort_payload : bytes := [255].          (* voteCompressionAbortMessa
 
 Record nstate := { n_son : bool; n_enc : dstate; n_ron : bool; n_dec : dstate }.
 
-(* vpackCompressVote: the buffer has MaxCompressedVoteSize bytes after the tag; on failure
-   "copied := copy(mbytesComp[len(tbytes):], d)" copies at most that many bytes of the vote *)
+(* vpackCompressVote: the stateless frame, or - when CompressVote refuses the vote - the whole
+   msgpack vote ("append(mbytesComp[:len(tbytes)], d...)", fix 8ff1e5c455) *)
 Definition broadcast_data (m : bytes) : bytes :=
+  match compress_vote true m with Some x => x | None => m end.
+
+(* the fallback BEFORE that fix: "copied := copy(mbytesComp[len(tbytes):], d)" into a buffer of
+   MaxCompressedVoteSize bytes, i.e. at most that many bytes of the vote were sent *)
+Definition broadcast_data_unfixed (m : bytes) : bytes :=
   match compress_vote true m with Some x => x | None => firstn max_compressed_vote_size m end.
 
 (* compress() for an AV message, and what writeLoopSendMsg puts on the wire *)
@@ -119,19 +124,7 @@ Definition spec_net (expect : bytes) (obs : term) : bool :=
   | _ => false
   end.
 
-(* recorded signature of the broadcaster's fallback (unchanged tree): a vote the stateless
-   encoder refuses and that is longer than MaxCompressedVoteSize reaches the receiver cut to
-   MaxCompressedVoteSize bytes; the stateful stream is not involved (plain AV does the same) *)
-Definition is_fallback_truncation (m : bytes) (obs : term) : bool :=
-  match compress_vote true m, obs with
-  | None, TL [TL ws; TL ds; _; _; _; _] =>
-      Nat.ltb max_compressed_vote_size (List.length m) &&
-      forallb (deliv_ok (firstn max_compressed_vote_size m)) ds && existsb is_TB ds
-  | _, _ => false
-  end.
-
-Record nsummary := { ns_parse : bool; ns_viol : option term; ns_known : option (string * term);
-                     ns_diff : option term; ns_vp : N }.
+Record nsummary := { ns_parse : bool; ns_viol : option term; ns_diff : option term; ns_vp : N }.
 
 Definition count_vp (obs : term) : N :=
   match obs with
@@ -152,18 +145,13 @@ Fixpoint run_net_ops (i : N) (s : nstate) (ops : list term) (a : nsummary) : nsu
           let corr := term_eqb obs mo in
           let expect := if isvote then payload else avref in
           let sp := spec_net expect obs in
-          let known := isvote && negb sp && is_fallback_truncation payload obs &&
-                       spec_net (firstn max_compressed_vote_size payload) obs in
           let detail := TL [tn i; mo] in
           run_net_ops (i + 1) s' rest
             {| ns_parse := ns_parse a && (isvote || String.eqb kind "d") && all_bytes payload;
-               ns_viol := if sp || known then ns_viol a else upd_first (ns_viol a) detail;
-               ns_known := if known then upd_first (ns_known a) ("fallback_truncation"%string, detail)
-                           else ns_known a;
+               ns_viol := if sp then ns_viol a else upd_first (ns_viol a) detail;
                ns_diff := if corr then ns_diff a else upd_first (ns_diff a) detail;
                ns_vp := ns_vp a + count_vp obs |}
-      | _ => {| ns_parse := false; ns_viol := ns_viol a; ns_known := ns_known a; ns_diff := ns_diff a;
-                ns_vp := ns_vp a |}
+      | _ => {| ns_parse := false; ns_viol := ns_viol a; ns_diff := ns_diff a; ns_vp := ns_vp a |}
       end
   end.
 
@@ -173,14 +161,12 @@ Definition check_net (n : Z) (ops : list term) : term :=
   match net_init (Z.to_N n) with
   | None => v_parse
   | Some s0 =>
-      let a := run_net_ops 0 s0 ops {| ns_parse := true; ns_viol := None; ns_known := None;
-                                       ns_diff := None; ns_vp := 0 |} in
+      let a := run_net_ops 0 s0 ops {| ns_parse := true; ns_viol := None; ns_diff := None; ns_vp := 0 |} in
       if negb (ns_parse a) then v_parse else
-      match ns_viol a, ns_known a, ns_diff a with
-      | Some d, _, _ => v_viol d
-      | None, Some (name, d), _ => v_known name d
-      | None, None, Some d => v_diff d
-      | None, None, None => if 2 <=? ns_vp a then v_ok else v_triv
+      match ns_viol a, ns_diff a with
+      | Some d, _ => v_viol d
+      | None, Some d => v_diff d
+      | None, None => if 2 <=? ns_vp a then v_ok else v_triv
       end
   end.
 
